@@ -612,6 +612,40 @@ def oracle_dw(chk, ents, budget):
 
 
 # ------------------------------------------------------------------------------- run
+def observe_edges(chk):
+    """behaviours at the edge of the property's text, recorded in the evidence, not demanded
+    (DESIGN section 4: the stricter reading is never used to raise an alarm)"""
+    base = {'in_channels': 8, 'out_channels': 8, 'groups': 1, 'kernel_size': (3, 3), 'output_shape': (1, 8, 9, 9),
+            'w_precision': 8, 'in_precision': 8, 'w_theta_alpha': 1, '_parameters': {'bias': None}}
+
+    def probe(module, fn, **kw):
+        sp = dict(base)
+        sp.update(kw)
+        try:
+            return 'returns %r' % float(_fn(module, fn)(sp))
+        except Exception as ex:
+            return 'raises %s' % type(ex).__name__
+    try:
+        r = probe('mpic_latency', '_mpic_latency_conv2d_generic', w_precision=4)
+        if r.startswith('raises'):
+            chk.observe('MPIC models with plain Python-int precisions: %s (they call .item(); PLiNIO\'s MPS layers always '
+                        'pass tensors; left outside the plain-number fix 3b5e664)' % r)
+        r = probe('ne16_latency', '_ne16_latency_conv2d_generic', w_precision=0, in_precision=4, kernel_size=(5, 5))
+        if r.startswith('returns'):
+            chk.observe('NE16 with 0-bit (pruned) weights %s before looking at kernel / activation precision: a pruned '
+                        'layer costs 0 on any hardware (Spec.Supported lists w_precision = 0 as supported)' % r)
+        r = probe('ne16_latency', '_ne16_latency_conv2d_generic', w_precision=16)
+        if r.startswith('returns'):
+            chk.observe('NE16 with w_precision=16 %s: the code documents and asserts only the 8-bit activation restriction; '
+                        'the weight width is a parameter of the bit-serial formula, not a table' % r)
+        r = probe('diana_latency', '_diana_latency_linear', in_features=8, out_features=5, output_shape=(1, 5, 8))
+        if r.startswith('raises'):
+            chk.observe('DIANA linear with a rank-3 output_shape %s (tuple unpacking): a rejection, which the property allows '
+                        'for layer kinds a restricted model does not cover' % r)
+    except Exception as ex:          # probes must never decide a verdict
+        chk.observe('edge probes failed: %r' % (ex,))
+
+
 def uncovered_generated():
     """every generated `X.val` / `X.backward` must be named by a theorem of Props/C16.lean"""
     import os
@@ -820,6 +854,7 @@ def run(chk):
     oracle_helpers(chk, cat, (20 if chk.quick else 200) * mult)
     chk.extra['t_helpers'] = round(time.time() - t0, 1)
     oracle_dw(chk, ents, 130 if (not chk.quick or broken) else 40)
+    observe_edges(chk)
 
 
 # ------------------------------------------------------------------------------- replay
